@@ -5,6 +5,9 @@ import Mathlib.Algebra.Order.Field.Rat
 import TapkeeVerif.Model.LocallyLinear
 import TapkeeVerif.Proofs.LocallyLinear
 import TapkeeVerif.Proofs.LocallyLinearHlle
+import TapkeeVerif.Proofs.SpectralLocal
+import Mathlib.LinearAlgebra.Matrix.Notation
+import Mathlib.Tactic.NormNum
 /-!
 C08 property theorems: the sparse matrices assembled by `routines/locally_linear.hpp`
 (`linear_weight_matrix`, `tangent_weight_matrix`, `hessian_weight_matrix`) in closed matrix form.
@@ -228,6 +231,71 @@ theorem hlle_cols_bijective_fixed
   rw [← hupd, ← hlleWritesGo_eq] at this
   exact this
 
--- SPECTRAL THEOREMS (appended by the spectral owner)
+/-! ## Spectral part (eigensolver contract `GenEigSystem` as hypothesis; `Proofs/SpectralLocal.lean`) -/
+
+section Spectral
+open TapkeeVerif.SpectralLocal
+variable {K : Type} [Field K] [LinearOrder K] [IsStrictOrderedRing K]
+
+
+/-- **Skip-one optimality** (KLLE, KLTSA, HLLE: `eigendecomposition(SmallestEigenvalues, skip = 1)`).
+    If `(V, lam)` is a full orthonormal eigensystem of the alignment matrix `M` with ascending eigenvalues (the dense
+    solver's contract) and its first eigenvector is constant (`lle_const_eigvec`, `ltsa_const_null`), then the next `d`
+    eigenvectors `Y` — what the methods return — are orthonormal, sum to zero, cost `∑ lam (1+c)`, and **minimise
+    `tr(Yᵀ M Y)` over all orthonormal `Z` orthogonal to the constant vector** (`kyFan_min` on the complement of 1). -/
+theorem smallest_skip_one_optimal {n d : Nat} (M V : Matrix (Fin n) (Fin n) K) (lam : Fin n → K)
+    (h : GenEigSystem M 1 V lam) (hd : 1 + d ≤ n) (κ : K) (hκ : κ ≠ 0)
+    (hconst : ∀ i, V i ⟨0, by omega⟩ = κ) :
+    (cols V (shiftIdx 1 hd))ᵀ * cols V (shiftIdx 1 hd) = 1 ∧
+    (∀ c, ∑ i, cols V (shiftIdx 1 hd) i c = 0) ∧
+    Matrix.trace ((cols V (shiftIdx 1 hd))ᵀ * M * cols V (shiftIdx 1 hd)) = ∑ c, lam (shiftIdx 1 hd c) ∧
+    ∀ Z : Matrix (Fin n) (Fin d) K, Zᵀ * Z = 1 → (∀ c, ∑ i, Z i c = 0) →
+      Matrix.trace ((cols V (shiftIdx 1 hd))ᵀ * M * cols V (shiftIdx 1 hd)) ≤ Matrix.trace (Zᵀ * M * Z) := by
+  have hinj := shiftIdx_injective (d := d) (n := n) 1 hd
+  refine ⟨?_, ?_, cols_trace h _ hinj, ?_⟩
+  · have := cols_orthonormal h _ hinj
+    rwa [Matrix.mul_one] at this
+  · intro c
+    have h0 := congrFun (congrFun h.orth ⟨0, by omega⟩) (shiftIdx 1 hd c)
+    rw [Matrix.mul_one, Matrix.mul_apply, Matrix.one_apply] at h0
+    have hne : (⟨0, by omega⟩ : Fin n) ≠ shiftIdx 1 hd c := by
+      intro hh
+      have := congrArg Fin.val hh
+      simp only [shiftIdx] at this
+      omega
+    rw [if_neg hne] at h0
+    simp only [Matrix.transpose_apply, hconst] at h0
+    rw [← Finset.mul_sum] at h0
+    rcases mul_eq_zero.mp h0 with h1 | h1
+    · exact absurd h1 hκ
+    · exact h1
+  · intro Z hZ hZ1
+    apply bottom_after_skip h 1 hd Z (by rwa [Matrix.mul_one])
+    intro j hj c
+    have hj0 : j = ⟨0, by omega⟩ := Fin.ext (by show j.1 = 0; omega)
+    rw [hj0, Matrix.mul_one, Matrix.mul_apply]
+    simp only [Matrix.transpose_apply, hconst]
+    rw [← Finset.mul_sum, hZ1 c, mul_zero]
+
+/-- non-vacuity: the normalised 4×4 Hadamard basis (constant first column `1/2`) is a full orthonormal eigensystem
+    of `M = V diag(0,1,2,3) Vᵀ` with ascending eigenvalues — all hypotheses of `smallest_skip_one_optimal` hold at d = 2 -/
+def exV : Matrix (Fin 4) (Fin 4) ℚ := (1 / 2 : ℚ) • !![1, 1, 1, 1; 1, -1, 1, -1; 1, 1, -1, -1; 1, -1, -1, 1]
+def exLam : Fin 4 → ℚ := ![0, 1, 2, 3]
+theorem exV_orth : exVᵀ * exV = 1 := by
+  ext i j
+  fin_cases i <;> fin_cases j <;> simp [exV, Matrix.mul_apply, Fin.sum_univ_four] <;> norm_num
+example : GenEigSystem (exV * Matrix.diagonal exLam * exVᵀ) 1 exV exLam ∧ (∀ i, exV i ⟨0, by omega⟩ = 1 / 2) := by
+  refine ⟨⟨?_, ?_, ?_⟩, ?_⟩
+  · rw [Matrix.mul_one, exV_orth]
+  · calc exVᵀ * (exV * Matrix.diagonal exLam * exVᵀ) * exV
+        = (exVᵀ * exV) * Matrix.diagonal exLam * (exVᵀ * exV) := by simp only [Matrix.mul_assoc]
+      _ = Matrix.diagonal exLam := by rw [exV_orth, Matrix.one_mul, Matrix.mul_one]
+  · intro a b hab
+    fin_cases a <;> fin_cases b <;> simp_all [exLam] <;> norm_num
+  · intro i
+    fin_cases i <;> simp [exV]
+
+end Spectral
+
 
 end TapkeeVerif.C08
